@@ -30,7 +30,7 @@ func TestC14(t *testing.T) {
 		NCases: func(tier string) int {
 			e := (c14M + 1) * (3*c14M + 2)
 			if tier == "thorough" {
-				return e + 3000
+				return e + 30000
 			}
 			return e + 260
 		},
